@@ -83,7 +83,7 @@ func lex(src string) ([]stok, error) {
 			out = append(out, stok{tChar, strconv.Itoa(int(r)), i})
 			i = j + 1
 		default:
-			ops := []string{"<==>", "==>", "::", "==", "!=", "<=", ">=", "&&", "||", ".(", "[]"}
+			ops := []string{"<==>", "===", "==>", "::", "==", "!=", "<=", ">=", "&&", "||", ".(", "[]"}
 			matched := false
 			for _, op := range ops {
 				if strings.HasPrefix(src[i:], op) {
@@ -426,7 +426,7 @@ func (p *parser) cmp() SExpr {
 		return p.quant()
 	}
 	x := p.add()
-	for _, op := range []string{"==", "!=", "<=", ">=", "<", ">"} {
+	for _, op := range []string{"===", "==", "!=", "<=", ">=", "<", ">"} {
 		if p.isOp(op) {
 			p.next()
 			y := p.add()
